@@ -8,3 +8,25 @@ package definition
 //@ method (Ordered).Order
 //@ pure
 //@ assigns nothing
+
+// Ghost trace of the start-up (properties C09, C12, C13):
+//   Failed         some start-up callback has reported an error (monotone)
+//   Refreshed      Factory.Refresh returned nil: every eagerly created component finished initialization
+//   RanLen/RanAt   the sequence of application runners invoked so far; RanSrc[k] is the position the k-th invoked
+//                  runner had in the list the container sequenced; LastRunFailed: the most recent runner returned an error
+//@ ghost var Failed bool
+//@ ghost var Refreshed bool
+//@ ghost var RanLen int
+//@ ghost var RanAt map[int]ApplicationRunner
+//@ ghost var RanSrc map[int]int
+//@ ghost var LastRunFailed bool
+
+// What the container owes a runner (requires) and what a runner's invocation does to the trace (ensures).
+// A-CALLBACK: a runner does not write container-internal state.
+//@ method (ApplicationRunner).Run
+//@ property C13 C09
+//@ requires [runners-only-when-ready] Refreshed
+//@ requires [no-runner-after-failure] !Failed
+//@ assigns Failed, RanLen, RanAt, LastRunFailed
+//@ ensures [trace-extended] RanLen == old(RanLen) + 1 && RanAt == store(old(RanAt), old(RanLen), self)
+//@ ensures [failure-recorded] LastRunFailed == (result != nil) && Failed == (result != nil)
